@@ -379,6 +379,7 @@ class Run:
             self.obj = PreOCF.init_custom(dict(o["ranks"]), self.bb if o.get("with_bb") else None, self.sig, meta)
         else:
             raise seams.HarnessError("unknown object kind %r" % self.kind)
+        self.S.trace_addr(id(self.obj) & 0xFFFFFFF)
         if self.cur == 0:
             self.created = True
             self.first_impacts = list(getattr(self.obj, "_impacts", None) or [])
@@ -1080,6 +1081,7 @@ def run_scenario(doc, full_trace=False):
         res = {
             "violations": violations,
             "digest": S.digest(),
+            "addr_digest": S.addr_digest(),
             "events": S.n_events,
             "vtime": round(S.now, 6),
             "fired": dict(S.fired),
